@@ -182,7 +182,17 @@ def run(spec):
     buf = io.StringIO()
     real_sleep, real_signal, real_print = _time.sleep, signal.signal, builtins.print
     _time.sleep = vsleep
-    signal.signal = lambda s, h: state["handlers"].__setitem__(s, h)
+    def fake_signal(signo, handler):
+        state["handlers"][signo] = handler
+        # "sigterm_in_setup": the signal arrives while the hardware is being set up, i.e. right after the program has installed
+        # its handlers and before main() runs (systemd stopping a service that is still starting)
+        if spec.get("sigterm_in_setup") and len(state["handlers"]) >= 2 and state["t_signal"] is None:
+            state["t_signal"] = w.now_us
+            h = state["handlers"].get(signal.SIGTERM)
+            if callable(h):
+                h(signal.SIGTERM, None)
+
+    signal.signal = fake_signal
     builtins.print = lambda *a, **k: buf.write(" ".join(str(x) for x in a) + k.get("end", "\n"))
     argv = sys.argv
     sys.argv = ["poupool.py", "--fake-devices", "--log-config", "/nonexistent"]
